@@ -181,7 +181,7 @@ PROPS = {
     },
     "C04": {
         "manifest": {
-            "text": "Lean 4 theorems on the digest models of C02/C03: forkid_commits (two signing contexts with the same FORKID preimage agree on version, signed outpoint/sequence, script code, spent value, locktime and the three hashed summaries), forkid_summaries_commit (for a collision-free hash the summaries pin down outpoints / sequences / outputs under exactly the ALL/NONE/SINGLE/ANYONECANPAY rules), the non-commitment theorems (other inputs and index under ANYONECANPAY, outputs under NONE, other outputs under SINGLE, spent value under the legacy algorithm). Correspondence: transactions of varied shape are signed through Tx.FillInput/unlocker.Simple with the 12 standard hash types, then every single-field mutation class is applied and the real interpreter's verdict is compared with (a) the Lean interpreter model with executable secp256k1/SHA-256 and (b) the property predicate: accepted iff the digest the hash type commits to is unchanged.",
+            "text": "Lean 4 theorems: a P2PKH spend whose signature verifies for the input's signature hash is accepted by the interpreter model (p2pkh_forkid_signature_accepted / p2pkh_legacy_signature_accepted: symbolic execution of Engine.Execute - option checks, both parsers, seven instructions, final check - for every flag word, transaction context, key and signature); on the digest models of C02/C03: forkid_commits (two signing contexts with the same FORKID preimage agree on version, signed outpoint/sequence, script code, spent value, locktime and the three hashed summaries), forkid_summaries_commit (for a collision-free hash the summaries pin down outpoints / sequences / outputs under exactly the ALL/NONE/SINGLE/ANYONECANPAY rules), the non-commitment theorems (other inputs and index under ANYONECANPAY, outputs under NONE, other outputs under SINGLE, spent value under the legacy algorithm). Correspondence: transactions of varied shape are signed through Tx.FillInput/unlocker.Simple with the 12 standard hash types, then every single-field mutation class is applied and the real interpreter's verdict is compared with (a) the Lean interpreter model with executable secp256k1/SHA-256 and (b) the property predicate: accepted iff the digest the hash type commits to is unchanged.",
             "note": "That a different digest fails verification is ECDSA unforgeability (assumed; observed on every generated case). Trusted: Lean kernel + standard axioms, harness/generators/comparer, driver glue, executable crypto modules validated on vectors and by the correspondence itself.",
             "technique": "Lean 4 proof over hand-written digest model + executable interpreter/ECDSA model + differential correspondence check with mutation predicate",
         },
